@@ -9,11 +9,12 @@ PARAM = {0: 0.5, 1: 2.0}
 class World:
     """One set of live optyx objects; `kind` selects the spelling."""
 
-    def __init__(self, kind='scalar'):
+    def __init__(self, kind='scalar', const_p=None):
         import optyx
         from optyx.core.parameters import Parameter
         self.kind = kind
-        self.p = Parameter('p', PARAM[0])
+        # const_p: the model rebuilt with the parameter replaced by a constant holding that value (C12's reference)
+        self.p = Parameter('p', PARAM[0]) if const_p is None else optyx.Constant(const_p)
         if kind == 'scalar':
             self.x = optyx.Variable('x', lb=0, ub=BOUNDS[0][0])
             self.y = optyx.Variable('y', lb=0, ub=BOUNDS[0][1])
@@ -53,6 +54,15 @@ class World:
     def set_param(self):
         self.pver = 1 - self.pver
         self.p.set(PARAM[self.pver])
+
+    def rebuilt_with_constants(self):
+        """A fresh world in which the parameter is a Constant holding its current value, same bounds."""
+        w = World(self.kind, const_p=PARAM[self.pver])
+        if self.bver:
+            w.bver = 1
+            for var, ub in zip(w.bvars, BOUNDS[1]):
+                var.ub = ub
+        return w
 
 
 class Replay:
